@@ -88,6 +88,29 @@ func runC15(c *Ctx) {
 		if !allBool {
 			continue
 		}
+		// a wrapper that only hands the string on to other functions of the package and combines their answers
+		// (analyze(s) = quotable(s) plus a derived flag) is followed inline; the functions that look at the bytes
+		// themselves are the whole-string predicates
+		scans, relays := false, false
+		for _, r := range referrersOf(fn.Params[0]) {
+			switch y := r.(type) {
+			case *ssa.DebugRef, *ssa.BinOp:
+			case *ssa.Call:
+				if b, isB := y.Call.Value.(*ssa.Builtin); isB && b.Name() == "len" {
+					continue
+				}
+				if cal := y.Call.StaticCallee(); cal != nil && cal.Pkg == fn.Pkg && cal.Blocks != nil {
+					relays = true
+					continue
+				}
+				scans = true
+			default:
+				scans = true
+			}
+		}
+		if relays && !scans {
+			continue
+		}
 		c.sawFn(fnName(fn))
 		nSum++
 		sum, probs := q.summarise(fn)
